@@ -72,5 +72,11 @@ func getTargetVersionOverrides(request interface{}) (*configapi.TargetVersionOve
 	if !ok {
 		return nil, errors.NewInternal("extracted-the-wrong-extensions")
 	}
+	for target, ttv := range overrides.Overrides {
+		// a map entry whose value was left out decodes to a nil pointer
+		if ttv == nil {
+			return nil, errors.NewInvalid("target version override for target '%s' has no type and version", target)
+		}
+	}
 	return overrides, nil
 }
